@@ -327,6 +327,31 @@ func c08Check(carrier string, body, blk []byte, items []c08Item, expectReject bo
 		if w := c08Additions(t.Additions, items); w != "" {
 			return w
 		}
+		// a receiver that was used before — it parsed a report with the complementary alarm and status words and the same items
+		// in reverse order, then a truncated body (rejected), possibly the same report once already — decodes THIS report as a
+		// fresh one does
+		{
+			var u model.T0x0200
+			prev := append([]byte{}, body...)
+			for i := 0; i < 8; i++ {
+				prev[i] ^= 0xff
+			}
+			_ = u.Parse(c08Msg(prev))
+			_ = u.Parse(c08Msg(prev[:27]))
+			if ref.BE32(blk[0:])&1 == 1 {
+				_ = u.Parse(c08Msg(body))
+				_ = u.Parse(c08Msg(body[:20]))
+			}
+			if err := u.Parse(c08Msg(body)); err != nil {
+				return "reject|well-formed location body rejected|0200 (receiver used before)"
+			}
+			if w := c08Base(&u.T0x0200LocationItem, blk); w != "" {
+				return w + " (receiver used before)"
+			}
+			if w := c08Additions(u.Additions, items); w != "" {
+				return w + " (receiver used before)"
+			}
+		}
 		// a receiver with a vendor hook installed (CustomAdditionContentFunc): a hook that declines every item, and one that
 		// takes the vendor IDs (>= 0xE0) and returns them as they came, must leave the decoded report exactly as without a hook
 		for hk := 0; hk < 2; hk++ {
